@@ -4,6 +4,8 @@ Walks Function.instruction_id/_input/_output/_constant (the instruction list Cas
 executes and its C generator prints) and emits, per unit,
   * a function form   Definition f (x0_0 ... : R) : list R := let v1 := ... in [outs]
   * a wp form         Definition f_wp (x0_0 ...) (P : list R -> Prop) : Prop := let ... in P [outs]
+  * for units of >= WPE_MIN instructions, an equational wp form
+                      Definition f_wpe (x0_0 ...) (P : list R -> Prop) : Prop := forall v, Eqn v e -> ... -> P [outs]
   * a list wrapper    Definition f_v (a0 a1 ... : list R) : list R := f (nth 0 a0 0) ...
   * named output projections  Definition f__<out> (r : list R) : list R := [nth k r 0; ...]
 Outputs are dense, column-major, all outputs concatenated; structural zeros are 0.
@@ -63,6 +65,9 @@ OP2 = {
 }
 POWS = (ca.OP_POW, ca.OP_CONSTPOW)
 OPNAME = {getattr(ca, n): n[3:] for n in dir(ca) if n.startswith("OP_")}
+
+
+WPE_MIN = 200
 
 
 def coq_const(c):
@@ -233,6 +238,10 @@ class Unit:
             self.out_offsets))
         s.append("Definition %s %s : list R :=\n%s." % (n, self.binder(), self.body(outlist)))
         s.append("Definition %s_wp %s (P : list R -> Prop) : Prop :=\n%s." % (n, self.binder(), self.body("P " + outlist)))
+        if self.n_instr >= WPE_MIN:
+            # equational form of the same let-chain (large units: the kernel never has to zeta-expand shared subterms)
+            lines = ["  forall %s, Eqn %s %s ->" % (v, v, e) for v, e in self.lets] + ["  P " + outlist]
+            s.append("Definition %s_wpe %s (P : list R -> Prop) : Prop :=\n%s." % (n, self.binder(), "\n".join(lines)))
         # list wrapper
         lst = " ".join("a%d" % i for i in range(len(self.in_nnz)))
         call = " ".join((["INF"] if self.has_inf else []) +
